@@ -12,19 +12,29 @@ CFG = {
                   "insertionSort and heapSort (siftDown invariant) sort their range, touch nothing else and never index out of "
                   "range for every strict weak order; partition and partitionEqual satisfy their post-conditions (left part < pivot "
                   "<= right part, resp. <= pivot < right part, pivot in place, nothing outside [a,b) touched, no index panic) for "
-                  "any less; the output checkers sorted_perm_b and stable_sorted_b are proved to decide "
-                  "Sorted /\\ Permutation and stability. PARTIAL: sortedness of the full pdqsort composition and of the stable sort "
-                  "(insertion blocks + symMerge + rotate) is not a theorem; it is decided per run by the verified checkers on the "
-                  "real outputs. The transcriptions are tied to the code on every run: ~5 000 calls, the sorts replayed through the "
+                  "any less. FULL sortedness theorems, for every strict weak order (irreflexive, transitive, incomparability "
+                  "transitive) and EVERY input: C10_sort_sorted - the pdqsort model (SortFunc / Sort) ends without index panic with "
+                  "its own fuel S n, the result is sorted (no inversion) and a permutation (loop invariant data[a-1] <= data[a:b]; "
+                  "covers insertionSort, the heapsort fallback, breakPatterns, choosePivot / median / ninther, reverseRange, "
+                  "partialInsertionSort, partition and partitionEqual for every limit / wasBalanced / wasPartitioned: "
+                  "C10_pdqsort_range); C10_stable_sorted - the stable sort model (insertionSort blocks of 20, symMerge rounds, "
+                  "rotate / swapRange) ends without panic for every input shorter than 2^63, sorted, a permutation and STABLE "
+                  "(every class of mutually incomparable elements keeps its input order); C10_stable_key restates that as "
+                  "Spec.Stable, the conclusion of the verified checker; C10_symmerge, C10_rotate, C10_partial_insertion and "
+                  "C10_pivot_in_range are the component specifications. The output checkers sorted_perm_b and stable_sorted_b are "
+                  "proved to decide Sorted /\\ Permutation and stability; they still judge every observed run of the real "
+                  "code. The transcriptions are tied to the code on every run: ~5 000 calls, the sorts replayed through the "
                   "Coq model with the sequence of less(x, y) calls compared (count and rolling hash), 14 input generators plus "
                   "McIlroy's anti-quicksort adversary run against the real SortFunc (the evidence lists the model branches hit, "
                   "incl. the heapsort fallback, breakPatterns, partialInsertionSort, partitionEqual, ninther, symMerge rotation).",
-    "level_note": "C10_sort_sorted_partial covers exactly the inputs pdqsort hands straight to insertion sort (n <= 12): sorted and "
-                  "no index panic. For n > 12 the proved pieces are: Permutation (C10_sort_perm, all paths), insertionSort "
-                  "(C10_insertion_sorted) and heapSort (C10_heapsort_sorted) as stand-alone range sorts, partition / partitionEqual "
-                  "post-conditions (C10_partition_post, C10_partition_equal_post). NOT proved: partialInsertionSort returning true only on a sorted range, "
-                  "choosePivot/breakPatterns/reverseRange index bounds, hence neither `pdqsort sorted` nor `pdqsort never panics` "
-                  "for n > 12; symMerge/rotate/stable (only Permutation). bcomparator.Sort, SortComparator, list.Sort and "
+    "level_note": "Sortedness of pdqsort and of the stable sort is a theorem of the transcribed models for all inputs "
+                  "(C10_sort_sorted, C10_stable_sorted); C10_sort_sorted_partial (n <= 12) is kept but subsumed. Premises: less is a "
+                  "strict weak order; for the stable sort additionally len < 2^63 (Go int: the model bounds the block-size "
+                  "doublings and the symMerge recursion depth by 64, exhausted only beyond 20 * 2^63 elements). "
+                  "partialInsertionSort's shift-left loop runs down to index 1, not to a: it stays inside data[a:b] only because of "
+                  "the pdqsort invariant data[a-1] <= data[a:b] (premise Pre of C10_partial_insertion / C10_pdqsort_range; shown to "
+                  "hold at every call inside C10_sort_sorted). NOT covered by theorems: the tie between the models and the Go "
+                  "code is by replay, not by proof; bcomparator.Sort, SortComparator, list.Sort and "
                   "GetSortedValues delegate to the standard library's sort.Sort: no model, output checker only. Float comparators: "
                   "NaN and infinities are outside the theorem and the generators; between tol/2 and tol the result depends on the "
                   "rounding and either 0 or the sign is accepted by the model tie. The less-call sequence is compared through a "
@@ -35,7 +45,8 @@ CFG = {
         "C10_cmp_int", "C10_cmp_int_laws", "C10_cmp_string", "C10_cmp_string_laws", "C10_cmp_bool", "C10_cmp_reverse",
         "C10_cmp_float", "C10_binary_search", "C10_binary_search_func", "C10_is_sorted", "C10_compare_equal",
         "C10_index_contains", "C10_sort_perm", "C10_insertion_sorted", "C10_heapsort_sorted", "C10_partition_post", "C10_partition_equal_post",
-        "C10_sort_sorted_partial",
+        "C10_sort_sorted_partial", "C10_sort_sorted", "C10_pdqsort_range", "C10_partial_insertion", "C10_pivot_in_range",
+        "C10_stable_sorted", "C10_stable_key", "C10_symmerge", "C10_rotate",
         "C10_sorted_perm_checker", "C10_checker_orders", "C10_stable_checker"])],
     "trusted": [
         "IEEE-754 subtraction of the float comparators = a rounding of the exact difference that is monotone, odd and the "
@@ -54,7 +65,9 @@ CFG = {
         "generic element type instantiated with int64 (tagged pairs encoded as key * 2^20 + index)",
     ],
     "assumptions": [
-        "less is a strict weak order for the sortedness theorems (asymmetric, negatively transitive); none for Permutation",
+        "less is a strict weak order for the sortedness theorems (irreflexive, transitive, incomparability transitive; "
+        "equivalently asymmetric and negatively transitive); none for Permutation",
+        "slice length < 2^63 for the stable sort (the model's fuel 64)",
         "slice length < 2^63 for BinarySearch's midpoint",
     ],
     "widen_runs": 1,
